@@ -697,7 +697,7 @@ func TestVerif_C07(t *testing.T) {
 	r.Set("cpu_limit_ms_per_mutant", cpuLimitMs)
 	r.Set("intact_max_alloc_bytes", maxIntact)
 	r.Set("alloc_budget_bytes", budget)
-	r.Rule("base files: 6 library-written files (one per feature), small reference-library files and a synthetic chain of 30 nested old-style groups with cached symbol-table entries (for which, in the quick tier, the substituted structure addresses are the first 8, the last 8 and the 8 nearest to the offset); mutants (one deviation each): every byte with non-zero content nearby set to each of {00,01,7F,80,FF}, and every offset read as a little-endian field of width 2/4/8 set to each boundary value (max, max-1, -8, -16, sign bit, 2^31, 2^32(-1), file size and file size +-1, 2^40) and, for width 8, the address of every signed structure in the file (self-reference, cycles); each mutant is opened and every read of the API is run (Walk, Info, Read, ReadStrings, ReadCompound, Attributes+ReadValue, ReadSlice of the first element, full chunk iteration) in a worker subprocess under an address-space limit; verdict: terminates, no panic, no fatal error, allocation below the budget, CPU time of the mutant below the work bound; every mutant is distinct")
+	r.Rule("base files: 7 library-written files (one per feature), small reference-library files and a synthetic chain of 30 nested old-style groups with cached symbol-table entries (for which, in the quick tier, the substituted structure addresses are the first 8, the last 8 and the 8 nearest to the offset); mutants (one deviation each): every byte with non-zero content nearby set to each of {00,01,7F,80,FF}, and every offset read as a little-endian field of width 2/4/8 set to each boundary value (max, max-1, -8, -16, sign bit, 2^31, 2^32(-1), file size and file size +-1, 2^40) and, for width 8, the address of every signed structure in the file (self-reference, cycles); each mutant is opened and every read of the API is run (Walk, Info, Read, ReadStrings, ReadCompound, Attributes+ReadValue, ReadSlice of the first element, full chunk iteration) in a worker subprocess under an address-space limit; verdict: terminates, no panic, no fatal error, allocation below the budget, CPU time of the mutant below the work bound; every mutant is distinct")
 	r.Assume("a hang is declared only after a mutant made no progress for 20 s and again for 60 s when re-run alone (an intact traversal takes milliseconds)")
 
 	type fileJob struct {
